@@ -98,6 +98,12 @@ func statusModel(exp expectation) string {
 		if strings.HasPrefix(exp.BodyClass, "missing-") {
 			return "400"
 		}
+		if strings.HasPrefix(exp.BodyClass, "present-") {
+			// the required member is there, in a shape the default effect
+			// may or may not be able to use: any outcome but the 400 of a
+			// body that lacks it
+			return "!400"
+		}
 		if exp.BodyClass == "valid" || exp.BodyClass == "bare-object" || strings.HasPrefix(exp.BodyClass, "good-id") {
 			if exp.Endpoint == "PostInbox" {
 				return "200"
@@ -144,6 +150,10 @@ func judgeStatus(exp expectation, sc *sim.Scenario, res *sim.Result) []finding {
 		// unusable input: an error, or the 400 of an unusable body
 		if !rp.Handled || (rp.Err == "" && !(len(rp.Statuses) == 1 && rp.Statuses[0] == 400)) {
 			return bad("expected an error or 400")
+		}
+	case "!400":
+		if len(rp.Statuses) > 0 && rp.Statuses[0] == 400 {
+			return bad("answered 400 although the required member is present")
 		}
 	case "app401":
 		if !rp.Handled || rp.Err != "" || len(rp.Statuses) != 0 || len(rp.AppStatuses) != 1 {
@@ -254,6 +264,9 @@ func requiredFamily(valid M) []struct {
 		// core: "null ... equivalent to the property being absent")
 		mk("missing-object:null", func(m M) { m["object"] = nil })
 		mk("missing-object:list-of-nulls", func(m M) { m["object"] = A{nil, nil} })
+		// present, but of a type the vocabularies do not define (with an id)
+		mk("present-object:unknown-type", func(m M) { m["object"] = M{"type": "ChatMessage", "id": R1 + "/chat/1", "content": "hi"} })
+		mk("present-object:null-and-unknown-type", func(m M) { m["object"] = A{nil, M{"type": "EmojiReact", "id": R1 + "/react/1"}} })
 		mk("missing-object:list-of-one-null", func(m M) { m["object"] = A{nil} })
 	}
 	if typ == "Add" || typ == "Remove" {
@@ -261,6 +274,7 @@ func requiredFamily(valid M) []struct {
 		mk("missing-target:empty-list", func(m M) { m["target"] = A{} })
 		mk("missing-target:null", func(m M) { m["target"] = nil })
 		mk("missing-target:list-of-nulls", func(m M) { m["target"] = A{nil, nil, nil} })
+		mk("present-target:unknown-type", func(m M) { m["target"] = M{"type": "Album", "id": R1 + "/albums/1"} })
 		// the member that is present may be of any shape: the body still
 		// lacks a required member
 		mk("missing-target:absent,object-without-id", func(m M) { delete(m, "target"); m["object"] = M{"type": "Note", "content": "anonymous"} })
